@@ -87,7 +87,7 @@ func (m *Machine) everr(format string, a ...interface{}) {
 var ghostSorts = map[string]Sort{
 	"@in": SBytes, "@pos": SBV64, "@out": SStrm, "@W": SBool, "@E": SBool, "@buf": SStrm, "@rd": SStrm,
 	"@nwrites": SBV64, "@dyncalls": SBV64, "@rset": SBV64,
-	"@refs": SBV64, "@declared": SBV64, "@tr": SStrm, "@opens": SBV64, "@clashes": SBV64, "@lastwriter": SBV64, "@startcls": SBV64, "@nvals": SBV64, "@selfregs": SBV64, "@lastreader": SBV64, "@dstartcls": SBV64, "@dstartrefs": SBV64, "@dstarttyps": SBV64, "@startrefs": SBV64, "@defs": SBV64, "@depth": SBV64, "@alloc": SBV64, "@nread": SBV64,
+	"@refs": SBV64, "@declared": SBV64, "@tr": SStrm, "@opens": SBV64, "@clashes": SBV64, "@lastwriter": SBV64, "@startcls": SBV64, "@nvals": SBV64, "@selfregs": SBV64, "@calls": SBV64, "@lastreader": SBV64, "@dstartcls": SBV64, "@dstartrefs": SBV64, "@dstarttyps": SBV64, "@startrefs": SBV64, "@defs": SBV64, "@depth": SBV64, "@alloc": SBV64, "@nread": SBV64,
 }
 
 func (m *Machine) ghost(st *State, name string) Value {
@@ -873,6 +873,20 @@ func (m *Machine) evCall(env *Env, x *Expr) CV {
 			m.everr("istype: unknown type %s", args[1].Name)
 		}
 		return CV{V: And(Not(Eq(t, Sym("iface.nil", SIface))), Eq(app(SRT, "i.type", t), m.typeConstant(ty)))}
+	case "holdervalue":
+		// the reflect.Value held by the *_refHolder that interface value x carries
+		need(1)
+		a := m.ev(env, args[0])
+		t, ok := a.V.(Term)
+		if !ok || t.Sort != SIface {
+			m.everr("holdervalue of non-interface")
+		}
+		ht := m.typeByString("*_refHolder")
+		if ht == nil {
+			m.everr("no type _refHolder")
+		}
+		p := m.assertedPtr(t, ht, ht.Underlying().(*types.Pointer))
+		return m.selectField(env, CV{V: p}, "value")
 	case "sameptr":
 		need(2)
 		a, okA := m.ev(env, args[0]).V.(*PtrV)
